@@ -9,6 +9,7 @@
 //           CD xi bi         as C, then the level vectors left behind: SX k l <levels[l]->x>, SB k l <levels[l]->b>, l >= 1
 //           CC xi bi k       k successive cycles on the same (x, b)                          -> OUT k <x>
 //           S xi bi maxit    ml->solve(x, b) with max_iterations = maxit                    -> OUT k <x>, ITER k it, RES k r0..r_it
+//           SI xi bi maxit   as S, then the iterates recomputed with cycle() calls: XK k q <x_q>, q = 1..iter
 //           K xi bi          PCG(A, ml, x, b, res, 1e-10, 4)          (distributed classes)  -> OUT k <x>
 //           B xi bi          Pre_BiCGStab(A, x, b, ml, res, 1e-10, 3)                        -> OUT k <x>
 //           P s              poison every level vector (x, b, tmp) with sentinel s (0: 1e30, 1: NaN, 2: -7.25)
@@ -85,6 +86,7 @@ static void run_case(const std::string& cid, Toks& t) {
         else ml = new SmoothedAggregationSolver(o.theta, MIS, JacobiProlongation, (strength_t)o.strength, (relax_t)o.relax);
         ml->max_coarse = o.max_coarse; ml->max_levels = o.max_levels; ml->relax_weight = o.omega; ml->num_smooth_sweeps = o.sweeps;
         ml->setup(As);
+        emit0(cid, "SETUP", "ok");
         int L = ml->num_levels;
         { std::ostringstream s; s << L; for (int l = 0; l < L; l++) s << " " << ml->levels[l]->A->n_rows; emit0(cid, "NLEV", s.str()); }
         for (int l = 0; l < L; l++) {
@@ -111,6 +113,12 @@ static void run_case(const std::string& cid, Toks& t) {
             else if (op == "S") { int maxit = t.next_int(); int it = ml->solve(x, b, maxit);
                 std::ostringstream s; s << k << " " << it; emit0(cid, "ITER", s.str());
                 emit0(cid, "RES", ks.str() + " " + nums_str(ml->residuals, std::min((int)ml->residuals.size(), it + 1))); }
+            else if (op == "SI") { int maxit = t.next_int(); int it = ml->solve(x, b, maxit);
+                std::ostringstream s; s << k << " " << it; emit0(cid, "ITER", s.str());
+                emit0(cid, "RES", ks.str() + " " + nums_str(ml->residuals, std::min((int)ml->residuals.size(), it + 1)));
+                Vector y(lit.nr); for (int i = 0; i < lit.nr; i++) y[i] = vecs[xi][i];
+                for (int q = 1; q <= it; q++) { ml->cycle(y, b, 0); std::ostringstream qs; qs << "@0 " << k << " " << q << " ";
+                    emit0(cid, "XK", qs.str() + nums_str(y.data(), y.size())); } }
             else throw std::runtime_error("op " + op + " not available for the sequential classes");
             emit0(cid, "OUT", "@0 " + ks.str() + " " + nums_str(x.data(), x.size()));
             if (op == "CD") for (int l = 1; l < L; l++) { std::ostringstream ls; ls << "@0 " << k << " " << l << " ";
@@ -136,6 +144,7 @@ static void run_case(const std::string& cid, Toks& t) {
     ml->max_coarse = o.max_coarse; ml->max_levels = o.max_levels; ml->relax_weight = o.omega; ml->num_smooth_sweeps = o.sweeps;
     ml->tap_amg = o.tap; ml->solve_tol = o.tol;
     ml->setup(A);
+    emit0(cid, "SETUP", "ok");
     int L = ml->num_levels;
     { std::ostringstream s; s << L; for (int l = 0; l < L; l++) s << " " << ml->levels[l]->A->global_num_rows; emit0(cid, "NLEV", s.str()); }
     // the partition invariant the theorems assume: a rank without rows of P owns no column of P
@@ -166,6 +175,12 @@ static void run_case(const std::string& cid, Toks& t) {
         else if (op == "S") { ml->max_iterations = t.next_int(); int it = ml->solve(x, b);
             std::ostringstream s; s << k << " " << it; emit0(cid, "ITER", s.str());
             emit0(cid, "RES", ks.str() + " " + nums_str(ml->residuals, std::min((int)ml->residuals.size(), it + 1))); }
+        else if (op == "SI") { ml->max_iterations = t.next_int(); int it = ml->solve(x, b);
+            std::ostringstream s; s << k << " " << it; emit0(cid, "ITER", s.str());
+            emit0(cid, "RES", ks.str() + " " + nums_str(ml->residuals, std::min((int)ml->residuals.size(), it + 1)));
+            ParVector y(lit.nr, nloc); fill_parvec(y, first, vecs[xi]);
+            for (int q = 1; q <= it; q++) { ml->cycle(y, b); std::ostringstream qs; qs << k << " " << q << " ";
+                emit_all(cid, "XK", qs.str() + parvec_str(y)); } }
         else if (op == "K") { std::vector<double> res; PCG(A, ml, x, b, res, 1e-10, 4); }
         else if (op == "B") { std::vector<double> res; Pre_BiCGStab(A, x, b, ml, res, 1e-10, 3); }
         else throw std::runtime_error("op " + op);
